@@ -157,6 +157,10 @@ func collectImportsFromType(t types.Type, pkg string, imports map[string]*Import
 				referencedImports[pkgPath] = newImp
 			}
 		}
+		// Type arguments are spelled in the generated code as well
+		for typeArg := range typ.TypeArgs().Types() {
+			collectImportsFromType(typeArg, pkg, imports, referencedImports, varPool)
+		}
 	case *types.Alias:
 		if objPkg := typ.Obj().Pkg(); objPkg != nil && objPkg.Path() != pkg {
 			pkgPath := objPkg.Path()
